@@ -680,6 +680,96 @@ def check_denoise_py(ck, cases):
             ck.disagree('c20.denoise_restore: _restore_standard_settings vs RB.Denoise.restoreActs', inp, orr, ar, TH_DPY)
 
 
+# ------------------------------------- signals that arrive between two benchmark processes
+def gen_signal_scenarios(ck, quick):
+    rng = ck.rng
+    reps = [r for r in all_reports() if r['kind'] == 'json' and settings_changed(r)]
+    out = []
+    for sched, cpu in (('batch', 1), ('round-robin', 1), ('random', 1), ('batch', 8), ('round-robin', 5)):
+        for sig in ('SIGTERM', 'SIGINT'):
+            for at in ((1, 2, 3, 4) if sig == 'SIGTERM' else (1, rng.choice([2, 3, 4]))):
+                if cpu > 1 and quick and at == 3:
+                    continue
+                out.append({'kind': 'signal', 'report': rng.choice(reps), 'scheduler': sched, 'cpu_count': cpu,
+                            'signal': sig, 'at': at, 'profiling': False, 'no_denoise': False, 'env': rng.choice(ENVS),
+                            'cset': None, 'num_cores': 4,
+                            'path': '%s-%s%s' % (sig.lower(), 'before-first-process' if at == 1 else 'between-invocations',
+                                                 '-parallel' if cpu > 1 else '')})
+    return out
+
+
+def check_signals(ck, scenarios):
+    """SIGTERM / SIGINT delivered while ReBench is *not* waiting for a benchmark process (before the
+    first one, between two: while a result is parsed and recorded), on every scheduler, in a forked
+    child with the signal dispositions of a fresh process"""
+    import signal
+    ops, recs = [], []
+    for sc in scenarios:
+        _counter[0] += 1
+        wd = os.path.join(ck.scratch, 'sig%d' % _counter[0])
+        os.makedirs(wd)
+        with open(os.path.join(wd, 'sig_adapter.py'), 'w') as f:
+            f.write(dd.SIG_ADAPTER)
+        cfg = {'default_experiment': 'T', 'default_data_file': 't.data',
+               'runs': {'invocations': 2, 'min_iteration_time': 0, 'execute_exclusively': sc['cpu_count'] == 1},
+               'benchmark_suites': {'S': {'gauge_adapter': {'SigAdapter': './sig_adapter.py'},
+                                          'command': 'h %(benchmark)s %(invocation)s', 'benchmarks': ['B1', 'B2', 'B3']}},
+               'executors': {'E': {'path': '.', 'executable': 'exe'}},
+               'experiments': {'T': {'suites': ['S'], 'executions': ['E']}}}
+        if sc['env']:
+            cfg['runs']['env'] = dict(sc['env'])
+        conf = drive.write_config(wd, cfg)
+
+        def script(rec):
+            o = drive.Outcome(0, 'B: iterations=1 runtime: 5ms\n')
+            o.delay = 0.03
+            return o
+        r = dd.run_forked_session(wd, [conf, '-s', sc['scheduler']], script, sc['report'], sig_at=sc['at'],
+                                  sig=getattr(signal, sc['signal']), cpu_count=sc['cpu_count'],
+                                  num_cores=sc['num_cores'])
+        ck.impl_traces += 1
+        inp = dict(sc)
+        if r['exit'] == 5 or (r['done'] is None and r['signal'] is None):
+            raise lib.InfraError('forked session failed: %r' % (r,))
+        ending = 'killed-by-signal-%s' % r['signal'] if r['signal'] is not None else \
+            {'ok': 'ok', 'failed': 'failed', 'aborted': 'interrupt', 'ui_error': 'ui_error'}.get(r['done'][1], 'crash')
+        ck.count('signal:%s:%s->%s' % (sc['scheduler'] + ('/parallel' if sc['cpu_count'] > 1 else ''), sc['path'],
+                                       ending))
+        delivered = any(e[0] == 'signal' for e in r['events'])
+        trace = []
+        for e in r['events']:
+            if e[0] == 'sudo':
+                if e[1] == 'minimize':
+                    trace.append({'t': 'minimize', 'profiling': '--for-profiling' in e[2]})
+                elif e[1] == 'restore':
+                    trace.append({'t': 'restore', 'without_shielding': '--without-shielding' in e[2],
+                                  'without_nice': '--without-nice' in e[2]})
+                elif e[1] == 'kill':
+                    trace.append({'t': 'kill', 'i': e[4] if len(e) > 4 and e[4] is not None else 0})
+            elif e[0] == 'start':
+                trace.append({'t': 'start', 'i': e[1]})
+            elif e[0] == 'stop':
+                trace.append({'t': 'stop', 'i': e[1], 'how': e[2]})
+        sudo = [(e[1], e[2]) for e in r['events'] if e[0] == 'sudo']
+        trace_oracle(ck, inp, dict(sc, kind='parallel' if sc['cpu_count'] > 1 else 'session'), trace, sudo, ending,
+                     sc['num_cores'])
+        if delivered and ending not in ('interrupt',) and not ending.startswith('killed'):
+            ck.count('signal:delivered-after-all-work')
+        if sc['cpu_count'] == 1:
+            head = [dict((k, v) for k, v in t.items() if k != 'how') for t in trace]
+            body = [{'t': t['t'], 'i': t['i']} for t in head if t['t'] in ('start', 'stop', 'kill')]
+            ops.append({'op': 'c20.session', 'no_denoise': False, 'profiling': False, 'report': sc['report'],
+                        'body': {'trace': body, 'ending': 'interrupt' if delivered else ending}})
+            recs.append((inp, head, ending))
+        ck.case(nontrivial_key=('sig', json.dumps(sc, sort_keys=True)),
+                sample={'signal': sc['path'], 'ending': ending} if _counter[0] % 17 == 0 else None)
+    for (inp, head, ending), ans in zip(recs, ck.model(ops)):
+        if ans.get('trace') != head or (ans.get('ending') != ending and not ending.startswith('killed')) \
+                or ending.startswith('killed'):
+            ck.disagree('c20.session: signal between two benchmark processes vs RB.Denoise.session', inp,
+                        {'trace': head, 'ending': ending}, ans, TH_SESSION)
+
+
 # ------------------------------------------------------- parallel scheduler
 def gen_parallel_scenarios(ck, n):
     rng = ck.rng
@@ -863,6 +953,9 @@ def dispatch(ck, inputs):
     sess = [i for i in inputs if i['kind'] == 'session']
     for i in range(0, len(sess), 120):
         check_sessions(ck, sess[i:i + 120])
+    sg = [i for i in inputs if i['kind'] == 'signal']
+    if sg:
+        check_signals(ck, sg)
     ex = [i for i in inputs if i['kind'] == 'exec']
     if ex:
         check_exec(ck, ex)
@@ -905,6 +998,7 @@ def run(ck):
         pass
     dispatch(ck, gen_denoise_py_cases(ck, 300))
     dispatch(ck, gen_exec_cases(ck))
+    dispatch(ck, gen_signal_scenarios(ck, quick))
     if not quick:
         dispatch(ck, gen_denoise_py_cases(ck, 0, exhaustive=True))
     check_shield(ck, 4096)
